@@ -21,12 +21,16 @@ import errno
 import gc
 import io
 import json
+import mmap
 import os
+import signal
+import struct
 import sys
 import tempfile
 import traceback
 
 REAL = {}
+REAL_GETPID = os.getpid
 
 
 class Fault:
@@ -46,13 +50,14 @@ class Tracer:
         self.fault = fault
         self.bufsizes = list(bufsizes) or [8192]
         self.nopen = 0
-        self.n = 0
-        self.trace = []
-        self.marks = []
+        # the op counter, the fired flag and the op log are shared with every process the
+        # producer forks (a writer running in a child, ...): positions are global
+        self._shm = mmap.mmap(-1, 16)
+        self._logfd = None
+        self.own_pid = None
         self.tracked_fds = set()
         self.raw_fds = {}  # fileno -> relpath of traced files (for fd-level copies: sendfile)
         self.open_files = []
-        self.fired = False
         self.disk_full = False
         self.name_seed = name_seed
 
@@ -74,18 +79,52 @@ class Tracer:
             p = p.decode("utf-8", "surrogateescape")
         return os.path.relpath(p, self.watch)
 
+    @property
+    def n(self):
+        return struct.unpack_from("Q", self._shm, 0)[0]
+
+    @property
+    def fired(self):
+        return bool(struct.unpack_from("Q", self._shm, 8)[0])
+
+    @fired.setter
+    def fired(self, v):
+        struct.pack_into("Q", self._shm, 8, 1 if v else 0)
+
+    def open_log(self, path):
+        self._logfd = REAL.get("os_open", os.open)(path, os.O_WRONLY | os.O_CREAT | os.O_APPEND, 0o600)
+        self.own_pid = REAL_GETPID()
+
+    def _log(self, rec):
+        if self._logfd is not None:
+            REAL.get("os_write", os.write)(self._logfd, (json.dumps(rec, default=repr) + "\n").encode())
+
+    def read_log(self, path):
+        trace, marks = [], []
+        try:
+            with REAL["open"](path, "rb") as fh:
+                for line in fh:
+                    rec = json.loads(line)
+                    if rec[0] == "__mark__":
+                        marks.append([rec[1], rec[2]])
+                    else:
+                        trace.append(rec)
+        except OSError:
+            pass
+        return trace, marks
+
     def mark(self, label):
-        self.marks.append([self.n, label])
+        self._log(["__mark__", self.n, label])
 
     def op(self, name, path, **info):
         """Called immediately before a state-changing system call.  Returns None, or
         'short' / 'after' for the caller to act on."""
         idx = self.n
-        self.n += 1
+        struct.pack_into("Q", self._shm, 0, idx + 1)
         rec = [name, path]
         if info:
             rec.append(info)
-        self.trace.append(rec)
+        self._log(rec)
         f = self.fault
         if self.disk_full and name in ("write", "os.write", "sendfile", "copy_file_range", "mkdir", "os.open", "open"):
             if self.disk_full is True or self.disk_full > 0:
@@ -95,7 +134,12 @@ class Tracer:
         if f.at == idx and not self.fired:
             self.fired = True
             if f.kind == "crash":
-                os._exit(137)
+                # SIGKILL of the process that is about to make the call (the producer itself,
+                # or a child it forked to do the work): no handler, no finally, no flush
+                try:
+                    os.kill(REAL_GETPID(), signal.SIGKILL)
+                finally:
+                    os._exit(137)
             if f.kind == "enospc":
                 raise OSError(errno.ENOSPC, "No space left on device (injected)", path)
             if f.kind == "eio_short":
@@ -445,7 +489,13 @@ def run_child(scenario_fn, watch, fault, bufsizes, name_seed, report_fd, exdev=F
     status = 0
     info = {}
     tracer = Tracer(watch, fault, bufsizes, name_seed, exdev=exdev, tmpdir=tmpdir)
+    logpath = os.path.join(os.path.dirname(os.path.abspath(watch)), "oplog.jsonl")
     try:
+        try:
+            os.unlink(logpath)
+        except OSError:
+            pass
+        tracer.open_log(logpath)
         install(tracer)
         try:
             info = scenario_fn(tracer) or {}
@@ -455,12 +505,15 @@ def run_child(scenario_fn, watch, fault, bufsizes, name_seed, report_fd, exdev=F
             info = {"raised": f"{type(e).__name__}: {e}",
                     "tb": traceback.format_exc()[-1500:] if fault.kind == "none" else ""}
             e = None
+        if tracer.own_pid != REAL_GETPID():
+            os._exit(0)  # a process the producer forked came back here: it is not ours to report for
         simulate_interpreter_exit(tracer)
     except BaseException as e:  # noqa: BLE001
         info = {"harness_error": f"{type(e).__name__}: {e}\n{traceback.format_exc()[-2000:]}"}
         status = 3
     try:
-        out = {"n": tracer.n, "trace": tracer.trace, "marks": tracer.marks, "info": info, "fired": tracer.fired}
+        trace, marks = tracer.read_log(logpath)
+        out = {"n": tracer.n, "trace": trace, "marks": marks, "info": info, "fired": tracer.fired}
         data = json.dumps(out, default=repr).encode()
         w = REAL.get("os_write", os.write)
         off = 0
